@@ -23,6 +23,12 @@ def cmd_check(a):
         return ctx.finish()
     except tlc.MachineryError as ex:
         print("MACHINERY-FAILURE property=%s: %s" % (a.id, ex))
+        if ctx.violations:
+            # the code already disagreed with the specification on recorded cases before the machinery gave up
+            # (typically a vacuity guard that no longer sees a clause exercised because every call raised):
+            # the disagreement is the verdict
+            print("(violations were recorded before the machinery failure: reporting them)")
+            return ctx.finish()
         return 2
     except Exception:
         traceback.print_exc()
